@@ -107,6 +107,29 @@ def run_split(task):
         cfg = gen.gen_config(rnd, model)
         progress.mark({"split": {"model": model, "k": k, "var": var}, "cfg": cfg})
         p = M.build_problem(model)
+        # the problem may already have been used: a solver built (and run) on it before it is split
+        pre = rnd.choice(["fresh", "solver_built", "solved_once", "nested"])
+        cnt("sampled.history_" + pre)
+        nested_model = model
+        if pre in ("solver_built", "solved_once", "nested"):
+            s0 = M.build_solver(model, cfg, problem=p)
+            if pre != "solver_built":
+                g = s0.solve()
+                for _ in range(3):
+                    if next(g, None) is None:
+                        break
+        if pre == "nested":
+            # split once, build a solver on a part, then split that part again (on any variable)
+            first = p.split(rnd.randint(1, 3), rnd.randrange(len(model["idx"])))
+            p = rnd.choice(first)
+            nested_model = dict(model)
+            nested_model["doms"] = [list(x) for x in p.shr_domains_lst]
+            M.build_solver(nested_model, cfg, problem=p)
+            model = nested_model
+            expected = collections.Counter(O.brute(model))
+            d = model["idx"][var]
+            size = model["doms"][d][1] - model["doms"][d][0] + 1
+            k = rnd.randint(1, size + 3)
         fails, parts = check_split(p, k, var, model)
         res["evals"] += 1
         cnt("sampled.splits")
@@ -122,8 +145,9 @@ def run_split(task):
         for q in parts:
             sub = dict(model)
             sub["doms"] = [list(x) for x in q.shr_domains_lst]
+            # solve the returned object itself (not a model rebuilt from its fields)
             out = modelrun.run_enum(sub, cfg, {"budget": {}} if MODE == "interp" else None,
-                                    max_solutions=3 * sum(expected.values()) + 50)
+                                    max_solutions=3 * sum(expected.values()) + 50, solver_kw={"problem_obj": q})
             cnt("sampled.parts_enumerated")
             if out.error:
                 fail("sub_problem_not_solved_in_finite_time" if out.error == "budget" else "sub_problem_" + out.error,
